@@ -179,5 +179,88 @@ impl ConnectionHandle {
 //@@ end
 }
 
+// ---------------------------------------------------------------------------------------------------------------
+// asking the engine for a link handle / a session channel: what the caller is told when the engine is gone
+//@@ trusted oneshot::channel() yields a responder and a receiving end whose awaited result (`.await` erased, R3) is either what the engine answered or `closed`; the request carries the responder; link name / relay / session sender are opaque
+#[verifier::external_body]
+pub struct LinkRelayIn { _p: u8 }
+#[verifier::external_body]
+pub struct OutputHandle { _p: u8 }
+#[verifier::external_body]
+pub struct OutgoingChannel { _p: u8 }
+#[verifier::external_body]
+pub struct SessionTx { _p: u8 }
+#[verifier::external_body]
+pub struct ConnStopRest { _p: u8 }
+#[verifier::external_body]
+pub struct SessStopRest { _p: u8 }
+pub enum ConnectionStopReason { Closed, Other(ConnStopRest) }
+impl Clone for ConnectionStopReason { #[verifier::external_body] fn clone(&self) -> (r: Self) ensures r == *self { unimplemented!() } }
+pub enum SessionStopReason { Ended, Other(SessStopRest) }
+impl Clone for SessionStopReason { #[verifier::external_body] fn clone(&self) -> (r: Self) ensures r == *self { unimplemented!() } }
+//@@ type file=fe2o3-amqp/src/session/error.rs kind=enum name=AllocLinkError
+//@@ subst `crate::link::SessionStopReason` => `SessionStopReason` rule=R11
+//@@ end
+//@@ type file=fe2o3-amqp/src/connection/error.rs kind=enum name=AllocSessionError
+//@@ end
+pub struct Responder<T> { pub g: Ghost<T> }
+pub struct RespRx<T> { pub answer: Ghost<Option<T>> }
+impl<T> RespRx<T> {
+    /// `resp_rx.await.map_err(f)`: Ok(what the engine answered) or Err(f(closed)) when the engine dropped the responder
+    #[verifier::external_body]
+    pub fn map_err<E, F: FnOnce(RecvErr) -> E>(self, f: F) -> (r: Result<T, E>)
+        requires forall|e: RecvErr| call_requires(f, (e,)),
+        ensures (match r { Ok(v) => self.answer@ == Some(v), Err(x) => self.answer@ is None && exists|e: RecvErr| call_ensures(f, (e,), x) }),
+    { unimplemented!() }
+}
+pub mod oneshot {
+    use super::*;
+    #[verifier::external_body]
+    pub fn channel<T>() -> (r: (Responder<T>, RespRx<T>)) { unimplemented!() }
+}
+pub enum SessionControl2 { AllocateLink { link_name: String, link_relay: LinkRelayIn, responder: Responder<Result<OutputHandle, AllocLinkError>> }, Other(ErrRest) }
+pub enum ConnectionControl2 { AllocateSession { tx: SessionTx, responder: Responder<Result<OutgoingChannel, AllocSessionError>> }, Other(ErrRest) }
+pub struct Cell<T> { pub v: Ghost<Option<T>> }
+impl<T> Cell<T> {
+    #[verifier::external_body]
+    pub fn get(&self) -> (r: Option<&T>) ensures (match r { Some(x) => self.v@ == Some(*x), None => self.v@ is None }) { unimplemented!() }
+}
+pub open spec fn sess_reason_or_ended(c: Cell<SessionStopReason>) -> SessionStopReason { match c.v@ { Some(r) => r, None => SessionStopReason::Ended } }
+pub open spec fn conn_reason_or_closed(c: Cell<ConnectionStopReason>) -> ConnectionStopReason { match c.v@ { Some(r) => r, None => ConnectionStopReason::Closed } }
+
+//@@ fn file=fe2o3-amqp/src/session/error.rs name=connection_stop_reason_or_closed
+//@@ param cell : &Cell<ConnectionStopReason>
+//@@ spec
+    ensures r == conn_reason_or_closed(*cell),        // [C14.stop-reason.read-from-the-published-cell]
+//@@ end
+
+//@@ fn file=fe2o3-amqp/src/session/mod.rs name=allocate_link
+//@@ param control : &mut ControlTx<SessionControl2>
+//@@ param link_relay : LinkRelayIn
+//@@ param session_stop_reason : &Cell<SessionStopReason>
+//@@ subst `SessionControl::AllocateLink` => `SessionControl2::AllocateLink` rule=R11
+//@@ subst `let reason = || match session_stop_reason.get() { __E1 };` => `let reason = || -> (o: SessionStopReason) ensures o == sess_reason_or_ended(*session_stop_reason) { match session_stop_reason.get() { __E1 } };` rule=R18
+//@@ subst `.map_err(|_v0| AllocLinkError::SessionStopped(reason()))` => `.map_err(|_v0| -> (o: AllocLinkError) ensures o == AllocLinkError::SessionStopped(sess_reason_or_ended(*session_stop_reason)) { AllocLinkError::SessionStopped(reason()) })` rule=R18
+//@@ subst `.map_err(|_v1| AllocLinkError::SessionStopped(reason()))` => `.map_err(|_v1| -> (o: AllocLinkError) ensures o == AllocLinkError::SessionStopped(sess_reason_or_ended(*session_stop_reason)) { AllocLinkError::SessionStopped(reason()) })` rule=R18
+//@@ spec
+    ensures
+        old(control).closed@ ==> r == Err::<OutputHandle, AllocLinkError>(AllocLinkError::SessionStopped(sess_reason_or_ended(*session_stop_reason))),     // [C14.attach.stopped-session-says-why] an attach issued after (or while) the session stopped fails with SessionStopped carrying the PUBLISHED reason -- the peer's End error, the connection's fate; `Ended` only if none was recorded
+        !old(control).closed@ ==> final(control).sent@.len() == old(control).sent@.len() + 1 && final(control).sent@.last() is AllocateLink,
+//@@ end
+
+impl ConnectionHandle2 {
+//@@ fn file=fe2o3-amqp/src/connection/mod.rs impl=`impl<R> ConnectionHandle<R>` name=allocate_session
+//@@ param tx : SessionTx
+//@@ subst `ConnectionControl::AllocateSession` => `ConnectionControl2::AllocateSession` rule=R11
+//@@ subst `.map_err(|_v0| { __E1 })` => `.map_err(|_v0| -> (o: AllocSessionError) ensures o == AllocSessionError::ConnectionStopped(conn_reason_or_closed(self.connection_stop_reason)) { __E1 })` rule=R18
+//@@ subst `.map_err(|_v1| { __E1 })` => `.map_err(|_v1| -> (o: AllocSessionError) ensures o == AllocSessionError::ConnectionStopped(conn_reason_or_closed(self.connection_stop_reason)) { __E1 })` rule=R18
+//@@ spec
+    ensures
+        old(self).control.closed@ ==> r == Err::<OutgoingChannel, AllocSessionError>(AllocSessionError::ConnectionStopped(conn_reason_or_closed(old(self).connection_stop_reason))),   // [C14.begin.stopped-connection-says-why] a begin issued after the connection stopped fails with ConnectionStopped carrying the published reason (the peer's Close error, the transport's fate)
+        final(self).connection_stop_reason == old(self).connection_stop_reason,
+//@@ end
+}
+pub struct ConnectionHandle2 { pub control: ControlTx<ConnectionControl2>, pub connection_stop_reason: Cell<ConnectionStopReason> }
+
 } // verus!
 fn main() {}
